@@ -180,11 +180,12 @@ def stepEv (s : AState) (e : Ev) : Except String AState :=
   | .iterDone d _ =>
       if !s.frames.isEmpty then throw "iterdone: inside a node"
       else if s.stopSeen then throw "iterdone: after the stop flag was seen"
-      else if s.iterStarted.headD 0 ≠ d then throw "iterdone: not the running iteration"
+      else if s.iterStarted.head? ≠ some d then throw "iterdone: not the running iteration"
       else if (s.pv.getD 0 []).isEmpty ∧ !s.rootMoves.isEmpty then throw "iterdone: empty root pv"
       else pure { s with iterDone := d :: s.iterDone, justDone := true, reportedPVs := s.pv.getD 0 [] :: s.reportedPVs }
   | .bestSet m =>
-      if s.justDone ∧ (s.pv.getD 0 []).head? = some m then pure { s with best := some m, justDone := false }
+      if !s.bestMoves.isEmpty then throw "bestset: after the bestmove was printed"
+      else if s.justDone ∧ (s.pv.getD 0 []).head? = some m then pure { s with best := some m, justDone := false }
       else if s.best = some m then pure s
       else if s.best = none ∧ s.rootMoves.contains m then pure { s with best := some m }
       else if s.rootMoves.isEmpty then pure { s with best := some m, justDone := false }   -- go in a position without legal moves: no claim
